@@ -352,14 +352,14 @@ func init() {
 						okC := false
 						for _, ed := range phi.Edges {
 							t := fa.Term(ed)
-							if t.IsCall("stakingtypes.Validator.TokensFromShares") && len(t.FindCalls("types.StakingKeeper.GetDelegation")) > 0 {
+							if (t.IsCall("stakingtypes.Validator.TokensFromShares") || t.IsCall("stakingtypes.Validator.TokensFromSharesTruncated")) && len(t.FindCalls("types.StakingKeeper.GetDelegation")) > 0 {
 								okC = true
 							} else if !t.IsCall("math.LegacyZeroDec") {
 								okC = false
 								break
 							}
 						}
-						r.Check(okC, fk, "current stake = token value of the module's delegation (zero if none)", "validator.TokensFromShares(GetDelegation(module, val).Shares) or 0", "the current alliance stake of the validator is not read from the module's own staking delegation", r.P(phi))
+						r.Check(okC, fk, "current stake = token value of the module's delegation (zero if none)", "validator.TokensFromShares[Truncated](GetDelegation(module, val).Shares) or 0 (the rounding direction is decided by C17.unbondfits)", "the current alliance stake of the validator is not read from the module's own staking delegation", r.P(phi))
 					}
 					if phi, isPhi := in.(*ssa.Phi); isPhi && phi.Comment == "expectedBondAmount" {
 						okE := true
@@ -416,6 +416,59 @@ func init() {
 			// delegated validator is the iteration's validator
 			vt := argT(fa, del, 4)
 			r.Check(vt.Op == "deref" && strings.HasSuffix(vt.Args[0].String(), ".Validator") && loopPhiOf(vt) != nil, fk, "delegates to the iteration's validator", "*validator.Validator of the bonded validator being adjusted", "delegates to "+vt.String(), r.P(del))
+		}})
+
+	register(&Rule{ID: "C17.unbondfits", Props: []string{"C17", "C10"}, Floor: 1,
+		Doc: "the rebalance values the module's own stake rounding down, so the amount it asks x/staking to unbond never exceeds what the shares are worth",
+		Run: func(e *Engine, r *RuleRun) {
+			fn := r.Need("keeper.Keeper.RebalanceBondTokenWeights")
+			if fn == nil {
+				return
+			}
+			fk, fa := FuncKey(fn), e.FA(fn)
+			vu := r.One(fn, "unbond amount validation", "types.StakingKeeper.ValidateUnbondAmount")
+			if vu == nil {
+				return
+			}
+			amt := argT(fa, vu, 3)
+			// the amount is trunc(current - expected); current must be a round-down valuation of the delegation's shares
+			rounded := CallsTo(fn, "stakingtypes.Validator.TokensFromShares")
+			truncd := CallsTo(fn, "stakingtypes.Validator.TokensFromSharesTruncated")
+			uses := func(calls []ssa.CallInstruction) ssa.CallInstruction {
+				for _, c := range calls {
+					v, ok := c.(ssa.Value)
+					if !ok {
+						continue
+					}
+					// flows into the amount through the currentBondedAmount phi
+					hit := false
+					amt.Walk(func(x *Term) {
+						if x.Op == "phi" {
+							if p, ok := x.Instr.(*ssa.Phi); ok {
+								for _, ed := range p.Edges {
+									if ed == v {
+										hit = true
+									}
+								}
+							}
+						}
+						if x.Instr == ssa.Instruction(c) {
+							hit = true
+						}
+					})
+					if hit {
+						return c
+					}
+				}
+				return nil
+			}
+			if c := uses(rounded); c != nil {
+				r.Bad(fk, "unbond amount derives from a round-down valuation of the module's shares", "the amount passed to ValidateUnbondAmount is trunc(TokensFromShares(shares) - target): TokensFromShares rounds half-up, so when the target is zero (full unbond) the amount can exceed the value of the shares by a fraction; on a validator whose shares-per-token rate is 2 or more (after slashes) the shares needed for that amount exceed the delegation even after truncation, x/staking answers `invalid shares amount`, the end blocker returns the error in every block (chain halt)", nil, r.P(c))
+			} else if c := uses(truncd); c != nil {
+				r.OK(fk, "unbond amount derives from a round-down valuation of the module's shares", "TokensFromSharesTruncated", r.P(c))
+			} else {
+				r.Undecided(fk, "unbond amount derives from a round-down valuation of the module's shares", "cannot find the valuation of the module's delegation that feeds the unbond amount ("+amt.String()+")")
+			}
 		}})
 
 	register(&Rule{ID: "C11.claimfirst", Props: []string{"C11", "C12", "C13"}, Floor: 2,
